@@ -341,6 +341,16 @@ theorem each_generate_runs_own_plugins {δ : Type} (descs : List δ) (n : Nat) (
     (call : List (δ × Option δ)) (h : call ∈ generateCalls true descs n st) :
     call = descs.map fun d => (d, some d) := generateCalls_own descs n st call h
 
+/-- **Every execution's `PluginParameters` are exactly the options of its own `-p` argument**, packed in
+order — in particular the empty list for a plugin given no options — whatever the shared request held
+before (`cur`: left by the previous plugin, an SDK plugin or the previous `-g`), for every number of
+target languages. -/
+theorem plugin_params_own (descs : List (List Opt)) (n : Nat) (cur : List Bytes) (call : List (List Bytes))
+    (h : call ∈ paramsSeenCalls descs n cur) : call = descs.map pack := paramsSeenCalls_own descs n cur call h
+
+/-- an option-less plugin after one with options sees nothing of the latter -/
+example : (paramsSeen [[⟨[97], [49]⟩], []] [[120]]).1 = [[[97, 61, 49]], []] := by decide
+
 /-- regression witness (repaired defect): without the reset the second language's loop runs the plugin
 twice and indexes `UsedPlugins[1]` out of range — the panic `thriftgo -g go -g go:x -p P` died of -/
 example : generateCalls false [7] 2 [] = [[(7, some 7)], [(7, some 7), (7, none)]] := by decide
